@@ -491,6 +491,10 @@ def run_scenarios(ctx, scenarios, name="prod", shards=8, timeout=1500):
     only = set(filter(None, os.environ.get("VERIF_ONLY_SCENARIOS", "").split("\n")))
     if only and any(s_["name"] in only for s_ in scenarios):
         scenarios = [s_ for s_ in scenarios if s_["name"] in only]     # --replay: just the reported scenarios
+    for k_, s_ in enumerate(scenarios):
+        # every other scenario numbers its brokers from 0 (a valid broker id code must not confuse with "unset")
+        if k_ % 2 == 1 and "idBase0" not in s_["cfg"]:
+            s_["cfg"]["idBase0"] = True
     cases = os.path.join(ctx.scratch, name + ".cases.ndjson")
     with open(cases, "w") as f:
         for s in scenarios:
